@@ -81,6 +81,13 @@ impl ConstructibleDb {
         };
         for (component_id, _) in component_db.constructors(computation_db) {
             self_.insert(component_id, component_db, computation_db);
+            // The `Ok` matcher of a fallible constructor is interned only once, the first time
+            // that constructor is registered in a scope. If the same constructor is registered
+            // again later on (after another constructor for the same type), it is the latest
+            // registration once more: its matcher must take precedence again.
+            if let Some((ok_id, _)) = component_db.match_ids(component_id) {
+                self_.insert(*ok_id, component_db, computation_db);
+            }
         }
         self_
     }
